@@ -278,6 +278,8 @@ def main():
             rc = max(rc, 2)
 
         cov = mod.summarize(results, tier)
+        from collections import Counter as _C
+        cov["violation_classes"] = dict(_C(str(mod.vclass(v)) for v in viols))
         wall = time.time() - t0
         cov["runs_per_hour"] = int(len(results) / max(explore_s, 1e-9) * 3600)
         cov["workers"] = args.workers
@@ -301,6 +303,8 @@ def main():
                 "violations": len(new_viols),
             }
             orch.write_json(os.path.join(VERIF, "evidence", f"{check}.json"), ev)
+        if viols:
+            print(f"violation classes: {cov['violation_classes']}")
         print(f"[{check}] {len(results)} runs in {wall:.1f}s, outcomes={cov.get('outcomes')}, violations={len(new_viols)}, "
               f"known={sum(len(v) for v in known_hits.values())}, exit={rc}")
         return rc
